@@ -80,7 +80,10 @@ type Spec struct {
 	Chunks int     `json:"chunks,omitempty"`
 	// Pre - the same Graph object is first run once with PreTasks trivial independent tasks under limit PreMaxPar
 	// (uncontrolled, not logged); only then the history is applied, the limit is set to MaxPar and the monitored run starts.
-	PreTasks      int  `json:"pre_tasks,omitempty"`
+	PreTasks int `json:"pre_tasks,omitempty"`
+	// PreLink - the preliminary tasks form a chain (pre k depends on pre k-1); after that Run every second task of the
+	// history is made to depend on a task that has already completed, and the graph is sorted once more
+	PreLink       bool `json:"pre_link,omitempty"`
 	PreMaxPar     int  `json:"pre_maxpar,omitempty"`
 	SerialMask    int  `json:"serial_mask,omitempty"`     // bit g set: graph g of a shared-task workload runs in serial mode
 	WrapSkip      bool `json:"wrap_skip,omitempty"`       // ErrorSkipParents is returned wrapped in another error (fmt.Errorf("...: %w", ...))
@@ -276,6 +279,7 @@ type Trace struct {
 	Output                 string       `json:"output,omitempty"`
 	OutputWrites           int          `json:"output_writes,omitempty"`
 	OutputRead             bool         `json:"output_read,omitempty"`  // every Run returned: the plain writer was read
+	PreSortBad             string       `json:"pre_sort_bad,omitempty"` // Spec.PreLink: DepthFirstSort after the preliminary Run was not dependencies-first
 	InnerOutput            string       `json:"inner_output,omitempty"` // Spec.Nested: what the inner graph's own writer received
 	InnerRan               bool         `json:"inner_ran,omitempty"`
 	InnerErr               string       `json:"inner_err,omitempty"`
@@ -442,6 +446,7 @@ type runner struct {
 	sentinels      []error
 	attemptErrs    [][]error // [task][attempt-1], used with Spec.AttemptErrs
 	inner          *plainWriter
+	preSortBad     string
 	innerRan       bool
 	innerErr       error
 	out            *plainWriter
@@ -605,6 +610,18 @@ func (r *runner) taskFn(i int) getoptions.CommandFn {
 	}
 }
 
+// preLinks - after the history: dependencies on tasks that completed in the preliminary Run (they count as satisfied).
+func (r *runner) preLinks(g *dag.Graph, tasks []*dag.Task) {
+	if !r.spec.PreLink || r.spec.PreFail || r.spec.PreTasks == 0 || r.model.DefErr || r.model.Cycle {
+		return
+	}
+	for i := 0; i < r.spec.N; i += 2 {
+		if r.model.InGraph[i] {
+			g.TaskDependsOn(tasks[i], g.Task(fmt.Sprintf("pre%d", (i/2)%r.spec.PreTasks)))
+		}
+	}
+}
+
 // Build the graphs from the history through the public API only.
 func (r *runner) build(gi int, tasks []*dag.Task) *dag.Graph {
 	g := dag.NewGraph(r.names[gi])
@@ -623,12 +640,33 @@ func (r *runner) build(gi int, tasks []*dag.Task) *dag.Graph {
 				return nil
 			}))
 		}
+		if r.spec.PreLink && !r.spec.PreFail {
+			for k := 1; k < r.spec.PreTasks; k++ {
+				g.TaskDependsOn(g.Task(fmt.Sprintf("pre%d", k)), g.Task(fmt.Sprintf("pre%d", k-1)))
+			}
+		}
 		if r.spec.PreMaxPar > 0 {
 			g.SetMaxParallel(r.spec.PreMaxPar)
 		}
 		r.preErr = g.Run(context.Background(), nil, nil)
 		if r.spec.PreFail {
 			r.preErr = nil // expected to fail
+		}
+		if r.spec.PreLink && !r.spec.PreFail {
+			// the order of a graph that has been run is still dependencies first
+			sorted, err := g.DepthFirstSort()
+			pos := map[string]int{}
+			for i, v := range sorted {
+				pos[string(v.ID)] = i
+			}
+			for k := 1; k < r.spec.PreTasks && err == nil; k++ {
+				if pos[fmt.Sprintf("pre%d", k)] < pos[fmt.Sprintf("pre%d", k-1)] {
+					r.preSortBad = fmt.Sprintf("DepthFirstSort after a Run lists pre%d before its dependency pre%d", k, k-1)
+				}
+			}
+			if err != nil {
+				r.preSortBad = "DepthFirstSort after a Run of an acyclic graph failed: " + err.Error()
+			}
 		}
 	}
 	for ci, c := range r.spec.Hist {
@@ -656,6 +694,7 @@ func (r *runner) build(gi int, tasks []*dag.Task) *dag.Graph {
 			g.TaskDependsOn(tasks[c.A], deps...)
 		}
 	}
+	r.preLinks(g, tasks)
 	if r.spec.Serial || r.spec.SerialMask&(1<<uint(gi)) != 0 {
 		g.SetSerial()
 	}
@@ -757,6 +796,7 @@ func Execute(spec *Spec) *Trace {
 	if r.preErr != nil {
 		tr.Timeout = "preliminary run of the graph failed: " + r.preErr.Error()
 	}
+	tr.PreSortBad = r.preSortBad
 	if ng == 1 && spec.PreTasks == 0 {
 		sorted, err := graphs[0].DepthFirstSort()
 		if err != nil {
